@@ -566,11 +566,12 @@ func (w *c15hWorld) runHook(script string) {
 		switch c.action {
 		case "hold", "pendinghold":
 			lastWord = "hold"
+			before := w.describeBounds(now)
 			refuse := w.ref.holdRequest(now)
 			w.stats["hold_requests"]++
 			switch {
 			case refuse && c.err == nil:
-				w.problem("refuse", "snapctl refresh --hold by %s at +%s was accepted (%q) although a bound was reached (%s)", c15hG, w.rel(now), strings.TrimSpace(c.stdout), w.describeBounds(now))
+				w.problem("refuse", "snapctl refresh --hold by %s at +%s was accepted (%q) although a bound was reached (%s)", c15hG, w.rel(now), strings.TrimSpace(c.stdout), before)
 				out = append(out, "hold:accepted!")
 			case refuse:
 				if !strings.Contains(c.err.Error(), "cannot hold some snaps") {
@@ -580,7 +581,7 @@ func (w *c15hWorld) runHook(script string) {
 				anyRefused = true
 				out = append(out, "hold:refused")
 			case c.err != nil:
-				w.problem("refuse", "snapctl refresh --hold by %s at +%s was refused although no bound is reached (%s): %v", c15hG, w.rel(now), w.describeBounds(now), c.err)
+				w.problem("refuse", "snapctl refresh --hold by %s at +%s was refused although no bound is reached (%s): %v", c15hG, w.rel(now), before, c.err)
 				out = append(out, "hold:refused!")
 			default:
 				w.stats["accepted_holds"]++
